@@ -21,11 +21,23 @@ Definition pm_scope_name (v : pm_scope) : string :=
 Definition pm_navs_ok (f : option (list string)) (t : pm_type) : Prop :=
   match f with Some l => l = map pm_scope_name (pm_nav_vars t) | None => True end.
 
+(* the byte-list names the model's filter_vars shadowing guard compares with = the DSL names above *)
+Fixpoint pm_zs_of_string (s : string) : list Z :=
+  match s with
+  | EmptyString => []
+  | String c r => Z.of_nat (Ascii.nat_of_ascii c) :: pm_zs_of_string r
+  end.
+Lemma pm_scope_zname_ok : forall v, pm_scope_zname v = pm_zs_of_string (pm_scope_name v).
+Proof. intros [| | |[]]; reflexivity. Qed.
+
+
 Lemma pm_source_facts :
   pm_prefix_ok f_pm_query_prefix pm_query_prefix /\ pm_guard_ok f_pm_query_guard /\
   pm_prefix_ok f_pm_modify_prefix pm_modify_prefix /\ pm_guard_ok f_pm_modify_guard /\
   pm_prefix_ok f_pm_delete_prefix pm_delete_prefix /\ pm_guard_ok f_pm_delete_guard /\
   pm_prefix_ok f_pm_actions_prefix pm_actions_prefix /\ pm_guard_ok f_pm_actions_guard /\
   pm_prefix_ok f_pm_join_prefix pm_query_prefix /\ pm_guard_ok f_pm_join_guard /\
-  pm_navs_ok f_pm_nav_host PmHost /\ pm_navs_ok f_pm_nav_service PmService /\ pm_guard_ok f_pm_bind_guard.
+  pm_navs_ok f_pm_nav_host PmHost /\ pm_navs_ok f_pm_nav_service PmService /\ pm_guard_ok f_pm_bind_guard /\
+  pm_guard_ok f_pm_perm_ns_private /\
+  pm_guard_ok f_pm_join_cache_by_identity /\ pm_guard_ok f_pm_join_type_cache_by_identity /\ pm_guard_ok f_pm_join_attrs_sorted.
 Proof. cbv. repeat split. Qed.
